@@ -314,6 +314,22 @@ func Execute(p Prop, driverPath string, seed uint64, tier string, replay []strin
 		r := NewRng(seed)
 		p.Gen(r, tier, func(l string) { lines = append(lines, l) })
 	}
+	// crash journal: which cases were in flight if the process running the real code dies
+	var journal *os.File
+	var jmu sync.Mutex
+	if jp := os.Getenv("VERIF_JOURNAL"); jp != "" {
+		if b, err := json.Marshal(lines); err == nil {
+			os.WriteFile(jp+".lines", b, 0o644)
+		}
+		journal, _ = os.Create(jp)
+	}
+	jlog := func(ev string, i int) {
+		if journal != nil {
+			jmu.Lock()
+			fmt.Fprintf(journal, "%s %d\n", ev, i)
+			jmu.Unlock()
+		}
+	}
 	// real code, in parallel
 	goOuts := make([]string, len(lines))
 	var wg sync.WaitGroup
@@ -328,7 +344,9 @@ func Execute(p Prop, driverPath string, seed uint64, tier string, replay []strin
 			defer wg.Done()
 			for i := range idx {
 				l := lines[i]
+				jlog("start", i)
 				goOuts[i] = SafeRun(func() string { return p.RunGo(l) })
+				jlog("done", i)
 			}
 		}()
 	}
@@ -337,6 +355,9 @@ func Execute(p Prop, driverPath string, seed uint64, tier string, replay []strin
 	}
 	close(idx)
 	wg.Wait()
+	if journal != nil {
+		journal.Close()
+	}
 	// model
 	modelOuts, derr := Driver(driverPath, lines)
 	if derr != nil {
